@@ -8,8 +8,8 @@
    Layout encoding:
      MBR: (0 sig tail (slot...))   slot = (0) | (1 ty first size) | (2 ty first (ebr...))
                                    ebr  = (has ty rel size link gap)
-     GPT: (1 k table_lba disk_guid table_crc backup first_usable last_usable pmbr tail (entry...))
-                                   pmbr = () | (size);  entry = () | (type guid first last flags (unit...)) *)
+     GPT: (1 k table_lba disk_guid table_crc backup first_usable last_usable sector0 tail (entry...))
+                                   sector0 = 512 bytes;  entry = () | (type guid first last flags (unit...)) *)
 From Coq Require Import String List NArith ZArith.
 From NV Require Import Lib.Val Lib.Res Lib.Wire Lib.Struct Disk.Model Disk.Build.
 Import ListNotations.
@@ -44,7 +44,7 @@ Definition get_layout (v : val) : dlayout :=
                       gl_disk_guid := getS (arg 3 v); gl_table_crc := getN (arg 4 v);
                       gl_backup_lba := getN (arg 5 v); gl_first_usable := getN (arg 6 v);
                       gl_last_usable := getN (arg 7 v);
-                      gl_pmbr := match getL (arg 8 v) with [x] => Some (getN x) | _ => None end;
+                      gl_sector0 := getS (arg 8 v);
                       gl_tail := getN (arg 9 v);
                       gl_entries := map get_entry (getL (arg 10 v)) |}
   end.
